@@ -19,8 +19,9 @@
 (* KeyCheck = the connection re-validates its key after locking.           *)
 (*                                                                         *)
 (* Prop layer: no panic; a delivery reaches the stream created for that    *)
-(* connection key (no stale/recycled connection); both directions share    *)
-(* one entry; every stream that is used is completed exactly once.         *)
+(* connection key and the half for its direction (no stale/recycled        *)
+(* connection object); both directions share one entry; every stream that  *)
+(* is used is completed exactly once.                                      *)
 (***************************************************************************)
 EXTENDS Integers, Sequences, FiniteSets, TLC
 
@@ -102,15 +103,21 @@ Created(t) ==
 Remove(cs, c, k) == IF k \in DOMAIN cs /\ (Bidir => TRUE) THEN [x \in DOMAIN cs \ {k} |-> cs[x]] ELSE cs
 
 \* conn.mu.Lock() ... process ... Unlock
+\* The direction d was decided at lookup time (loc[t].dir); the design with KeyCheck decides it again from the
+\* connection's key once the lock is held.  A delivery is RIGHT when the packet's key is the connection's key and it
+\* is treated as the connection's forward direction, or (Bidir) it is the reverse key treated as the reverse
+\* direction; anything else hands the packet to another connection's stream or to the wrong half of its own
+\* (a connection object recycled for the reverse key of the same connection).
 Process(t) ==
   /\ pc[t] = "prelock"
   /\ LET c == loc[t].conn
          key == <<Cur(t)[1], Cur(t)[2]>>
          fin == Cur(t)[3]
          cr == conn[c]
-         d == loc[t].dir
+         d == IF KeyCheck /\ Bidir THEN (IF cr.key = key THEN 0 ELSE 1) ELSE loc[t].dir
          allDirs == IF Bidir THEN {0, 1} ELSE {0}
          stale == ~(cr.key = key \/ (Bidir /\ cr.key = Rev(key)))
+         right == (cr.key = key /\ d = 0) \/ (Bidir /\ cr.key = Rev(key) /\ d = 1)
      IN
      IF (~Bidir /\ cr.closed # {}) \/ (KeyCheck /\ stale)
      THEN \* tcpassembly: closed connection (or, when re-validating, a recycled one): unlock and look up again
@@ -118,13 +125,14 @@ Process(t) ==
           /\ pc' = [pc EXCEPT ![t] = "looked"]
           /\ UNCHANGED <<conns, free, conn, streams, pi, misdelivered>>
      ELSE IF Bidir /\ d \in cr.closed
-     THEN \* reassembly: packet on a closed half is dropped
+     THEN \* reassembly: packet on a closed half is dropped (after Stream.Accept has seen it)
           /\ pi' = [pi EXCEPT ![t] = @ + 1] /\ pc' = [pc EXCEPT ![t] = "start"]
           /\ streams' = [streams EXCEPT ![cr.stream].used = TRUE]
-          /\ UNCHANGED <<conns, free, conn, loc, misdelivered>>
+          /\ misdelivered' = (misdelivered \/ ~right)
+          /\ UNCHANGED <<conns, free, conn, loc>>
      ELSE LET closed2 == IF fin THEN cr.closed \cup {d} ELSE cr.closed
               complete == fin /\ closed2 = allDirs /\ ~cr.completed
-          IN /\ misdelivered' = (misdelivered \/ stale)
+          IN /\ misdelivered' = (misdelivered \/ ~right)
              /\ streams' = [streams EXCEPT ![cr.stream].used = TRUE,
                                            ![cr.stream].got = Append(@, key),
                                            ![cr.stream].completes = IF complete THEN @ + 1 ELSE @]
